@@ -342,10 +342,14 @@ pub fn start_tcp_client(addr: SocketAddr, retry: (u64, u64), opts: ClientOptions
 }
 
 pub fn start_tcp_client_slow(addr: SocketAddr, retry: (u64, u64), opts: ClientOptions, listener_delay_ns: u64) -> ClientRig {
+    start_tcp_client_host(HostAddr::ip(addr.ip(), addr.port()), addr, retry, opts, listener_delay_ns)
+}
+
+pub fn start_tcp_client_host(host: HostAddr, addr: SocketAddr, retry: (u64, u64), opts: ClientOptions, listener_delay_ns: u64) -> ClientRig {
     let states: StateLog = Arc::new(Mutex::new(Vec::new()));
     let comps: Completions = Arc::new(Mutex::new(Vec::new()));
     let (channel, task) = create_tcp_client_task_with_options(
-        HostAddr::ip(addr.ip(), addr.port()),
+        host,
         doubling_retry_strategy(Duration::from_nanos(retry.0), Duration::from_nanos(retry.1)),
         Some(Box::new(Listen { log: states.clone(), delay_ns: listener_delay_ns })),
         opts,
@@ -379,6 +383,7 @@ fn pick_timeout() -> u64 {
 }
 
 pub const RTU_PATH: &str = "/dev/ttySIM1";
+const DNS_NAME: &str = "plc.example";
 
 enum Link {
     Tcp { addr: SocketAddr, peer: Option<PeerEnd> },
@@ -782,6 +787,9 @@ fn run_lockstep_impl(cfg: &ScenCfg, out: &mut RunOut, rtu: bool) {
         .decode_level(decode)
         .max_queued_requests(qcap)
         .max_response_timeouts(max_timeouts.and_then(std::num::NonZeroUsize::new));
+    // a quarter of the TCP runs address the server by name: resolution failures are failed connects
+    let use_dns = !rtu && cfg.variant != 1 && chance(1, 4);
+    let mut dns_down = false;
     let (rig, mut model, link) = if rtu {
         simtokio::serial::add_line(RTU_PATH, simtokio::serial::OpenOutcome::Ok, true);
         let rig = start_rtu_client(baud, (retry_min, retry_max), decode, qcap);
@@ -790,7 +798,12 @@ fn run_lockstep_impl(cfg: &ScenCfg, out: &mut RunOut, rtu: bool) {
         (rig, m, Link::Rtu { open: false, opens_seen: 0, closes_seen: 0 })
     } else {
         net::stub_listen(addr);
-        let rig = start_tcp_client(addr, (retry_min, retry_max), opts);
+        let rig = if use_dns {
+            net::set_dns(DNS_NAME, Some(addr.ip()));
+            start_tcp_client_host(HostAddr::dns(DNS_NAME.to_string(), addr.port()), addr, (retry_min, retry_max), opts, 0)
+        } else {
+            start_tcp_client(addr, (retry_min, retry_max), opts)
+        };
         let m = ClientModel::new(Transport::Tcp, Retry::new(retry_min, retry_max), max_timeouts);
         (rig, m, Link::Tcp { addr, peer: None })
     };
@@ -1162,13 +1175,21 @@ fn run_lockstep_impl(cfg: &ScenCfg, out: &mut RunOut, rtu: bool) {
                                 RTU_PATH,
                                 if l.model.server_up { simtokio::serial::OpenOutcome::NoDevice } else { simtokio::serial::OpenOutcome::Ok },
                             );
+                        } else if use_dns && chance(1, 2) {
+                            // resolution of the host name starts / stops failing (an attempt already
+                            // past its resolution is not affected)
+                            dns_down = !dns_down;
+                            net::set_dns(DNS_NAME, if dns_down { None } else { Some(addr.ip()) });
+                            l.model.name_unresolvable = dns_down;
+                            l.model.server_up = !l.model.server_up; // undone below: the listener is untouched
+                            out.probe("dns_resolution_toggled");
                         } else if l.model.server_up {
                             net::stub_unlisten(addr);
                         } else {
                             net::stub_listen(addr);
                         }
                         l.model.server_up = !l.model.server_up;
-                        desc = format!("server_up={}", l.model.server_up);
+                        desc = format!("server_up={} name_resolves={}", l.model.server_up, !dns_down);
                     }
                     1 if !rtu => {
                         let d = [1 * MS, 20 * MS, 3000 * MS][choose(3) as usize];
